@@ -208,3 +208,62 @@ Proof.
   - intro a. rewrite <- (r_arr _ _ _ _ RF). rewrite (BS.l_arrs _ _ LF).
     rewrite Bridge_Asm.zlookup_find, (Bridge_Asm.sr_arrs _ _ Rs). reflexivity.
 Qed.
+
+(* ------------------------------------------------------------------ deciding qblocks_defined for runs that end *)
+Fixpoint qblocks_check (N : nat) (qps : list (list Q.qinstr)) (s : Q.qstate) : bool :=
+  match qps with
+  | [] => true
+  | qp :: r => match Q.qrun qp s N with
+               | (s', _, State.Halt) => qblocks_check N r s'
+               | _ => false
+               end
+  end.
+
+Lemma qblocks_defined_by_run : forall N qps s, qblocks_check N qps s = true -> qblocks_defined qps s.
+Proof.
+  intros N qps. induction qps as [|qp qps IH]; intros s H; cbn [qblocks_check qblocks_defined] in *; [exact I|].
+  destruct (Q.qrun qp s N) as [[s1 pc1] o] eqn:E.
+  assert (Ho : o = State.Halt) by (destruct o; try discriminate; reflexivity). subst o.
+  unfold Q.qrun in *. split.
+  - apply SemQProofs.qdefined_is_qsafe.
+    apply (SemQProofs.qsafe_by_run Sem.is_unspec qp s 0%Z N); [reflexivity|rewrite E; discriminate|rewrite E; reflexivity].
+  - intros fuel s' pc Hr.
+    destruct (SemQProofs.qrun_fuel_stable N qp s 0%Z fuel) as [X|X]; [rewrite E; discriminate| |].
+    + rewrite Hr in X. discriminate.
+    + rewrite Hr, E in X. inversion X; subst. apply IH. exact H.
+Qed.
+
+(* ------------------------------------------------------------------ the compilation pipeline as a function *)
+Fixpoint compile_blocks (pr : Asm.aparams) (cap : nat) (bs : list (option (list sir))) : option (list (list Q.qinstr)) :=
+  match bs with
+  | [] => Some []
+  | None :: r => compile_blocks pr cap r
+  | Some code :: r =>
+      match BS.t_prog (flatten code) with
+      | Some P =>
+          if BS.code_ok cap (flatten code) then
+            match Asm.assemble_ir pr P with
+            | Asm.AOk T =>
+                match BA.e_qprog T, compile_blocks pr cap r with
+                | Some qp, Some qps => Some (qp :: qps)
+                | _, _ => None
+                end
+            | Asm.AErr _ => None
+            end
+          else None
+      | None => None
+      end
+  end.
+
+Lemma compile_blocks_compiled : forall pr cap bs qps, compile_blocks pr cap bs = Some qps -> compiled pr cap bs qps.
+Proof.
+  intros pr cap bs. induction bs as [|[code|] bs IH]; intros qps H; cbn [compile_blocks] in H.
+  - inversion H. constructor.
+  - destruct (BS.t_prog (flatten code)) as [P|] eqn:EP; [|discriminate].
+    destruct (BS.code_ok cap (flatten code)) eqn:Eok; [|discriminate].
+    destruct (Asm.assemble_ir pr P) as [T|] eqn:ET; [|discriminate].
+    destruct (BA.e_qprog T) as [qp|] eqn:Eq; [|discriminate].
+    destruct (compile_blocks pr cap bs) as [qps'|] eqn:Er; [|discriminate].
+    inversion H; subst. econstructor; eauto.
+  - constructor. apply IH. exact H.
+Qed.
